@@ -106,6 +106,11 @@ impl Prop for C17 {
     fn id(&self) -> &'static str {
         "C17"
     }
+    /// C17 is the check that has to notice a changed encoding, so it does not depend on the
+    /// harness being able to read units from the current one.
+    fn observes_units(&self) -> bool {
+        false
+    }
     fn rule(&self) -> String {
         "units: all 78 `units::*` statics and the 8 base units x power in -3..3 (no 0) x all 21 prefixes as one-unit compounds; all 2-unit compounds over all units (fixed powers/prefixes) and all 3-unit compounds over a 12-unit core: CBOR encode/decode must return an equal compound whose units are the same statics (id and vtable); ids pairwise distinct and equal to the documented ids pinned in the harness (wire-format stability across builds); decoding {\"Derived\": id} yields the static that encodes to it. Rationals: |p|<=200/q<=60 grid plus a big ladder through CBOR and JSON. Constants: every shipped constant raw Value -> subject `Constant` -> bytes -> `Constant`, fields compared with the raw value decoded independently; every constant with a typeable spelling also through the tool's own loader (looked up by its own words on the in-memory database: stored value, unit, description, source); long decimals: 10^k, 10^k+-1, 2^k, 3^k, k! for 14 lengths from 8 to 200 digits over 9 denominators (integer, short and long terminating tails, repeating), both signs, and long integer parts with a tiny fraction, through CBOR and JSON. Non-trivial = everything but the id-table cases; distinct = distinct case keys".into()
     }
@@ -114,6 +119,12 @@ impl Prop for C17 {
     }
     fn generate(&self, tier: Tier, sink: &mut dyn FnMut(Case)) {
         sink(Case::new("id-table", "ids distinct and documented"));
+        // "a unit expression written by one build reads identically in the next": the encoding the
+        // shipped data files and existing indexes use, written out by hand for every base unit
+        // (alone and in a compound under a power and a prefix), must decode to that unit
+        for (name, _) in base_units() {
+            sink(Case::new("legacy-base", name.to_string()));
+        }
         let units = all_units();
         for (i, _) in units.iter().enumerate() {
             sink(Case::new("unit", format!("{i}")));
@@ -247,6 +258,32 @@ impl Prop for C17 {
                     return fw::fail("id-count", format!("{} statics vs {} documented derived units", st.len(), tables::UNITS.iter().filter(|u| u.base.is_empty()).count()));
                 }
                 fw::pass(true, st.len() as u64)
+            }
+            "legacy-base" => {
+                use serde_cbor::Value;
+                let (name, unit) = base_units().into_iter().find(|(n, _)| *n == case.key).unwrap();
+                let text = |s: &str| Value::Text(s.to_string());
+                // the unit alone: its variant name
+                let bytes = serde_cbor::to_vec(&text(name)).unwrap();
+                match serde_cbor::from_slice::<Unit>(&bytes) {
+                    Ok(u) if same_unit(&u, &unit) => {}
+                    Ok(u) => return fw::fail(format!("legacy-base-other:{name}"), format!("the stored name `{name}` decodes to {u:?}")),
+                    Err(e) => return fw::fail(format!("legacy-base-undecodable:{name}"), format!("the stored name `{name}` no longer decodes: {e}")),
+                }
+                // in a compound, as the data files and indexes store it: {"names": {<unit>: {"power", "prefix"}}}
+                for (power, prefix) in [(1i64, 0i64), (2, 3), (-1, -3)] {
+                    let state: Value = Value::Map([(text("power"), Value::Integer(power as i128)), (text("prefix"), Value::Integer(prefix as i128))].into_iter().collect());
+                    let names: Value = Value::Map([(text(name), state)].into_iter().collect());
+                    let v: Value = Value::Map([(text("names"), names)].into_iter().collect());
+                    let bytes = serde_cbor::to_vec(&v).unwrap();
+                    let want = Compound::from_iter([(unit, (power as i32, prefix as i32))]);
+                    match serde_cbor::from_slice::<Compound>(&bytes) {
+                        Ok(c) if c == want => {}
+                        Ok(c) => return fw::fail(format!("legacy-compound-other:{name}"), format!("the stored compound {{{name}: power {power}, prefix {prefix}}} decodes to {c}, not {want}")),
+                        Err(e) => return fw::fail(format!("legacy-compound-undecodable:{name}"), format!("the stored compound {{{name}: power {power}, prefix {prefix}}} no longer decodes: {e}")),
+                    }
+                }
+                fw::pass(true, fw::hash_str(name))
             }
             "unit" => {
                 let i: usize = case.key.parse().unwrap();
